@@ -28,7 +28,7 @@ fn low_knobs(sc: &Scenario) -> Knobs {
 fn n_sampled_chunks(tier: Tier) -> u64 {
     match tier {
         Tier::Quick => 2_500,
-        Tier::Thorough => 25_000,
+        Tier::Thorough => 75_000,
     }
 }
 
